@@ -42,7 +42,10 @@ pub proof fn lemma_body_step(ts: Seq<VTok>, i: int, init: bool, ind: nat)
         assert(a.skip(1) =~= Seq::<VTok>::empty());
         assert(ts.take(0) =~= Seq::<VTok>::empty());
         assert(a[0] == ts[0]);
+        assert(body(a.skip(1), ts[0].0 == NEWLINE, ind) =~= Seq::<char>::empty());
+        assert(body(ts.take(0), init, ind) =~= Seq::<char>::empty());
         assert(body(a, init, ind) =~= (if init { spaces(ind) } else { Seq::<char>::empty() }) + ts[0].1@);
+        assert(ends_nl(ts.take(0), init) == init);
     } else {
         let b = ts.skip(1);
         assert(a.skip(1) =~= b.take(i));
@@ -93,11 +96,44 @@ pub proof fn lemma_body_last(ts: Seq<VTok>, init: bool, ind: nat)
     ensures body(ts, init, ind).len() > 0, body(ts, init, ind).last() == ts.last().1@.last()
     decreases ts.len()
 {
+    let head = (if init { spaces(ind) } else { Seq::<char>::empty() }) + ts[0].1@;
     if ts.len() == 1 {
         assert(ts.skip(1) =~= Seq::<VTok>::empty());
         assert(ts.last() == ts[0]);
+        assert(body(ts.skip(1), ts[0].0 == NEWLINE, ind) =~= Seq::<char>::empty());
+        assert(body(ts, init, ind) =~= head);
+        assert(head.last() == ts[0].1@.last());
     } else {
         assert(ts.skip(1).last() == ts.last());
         lemma_body_last(ts.skip(1), ts[0].0 == NEWLINE, ind);
+        let rest = body(ts.skip(1), ts[0].0 == NEWLINE, ind);
+        assert(body(ts, init, ind) == head + rest);
+        assert((head + rest).last() == rest.last());
     }
 }
+
+/// what is left after stripping has no leading blank; a text without NEWLINE tokens keeps that property
+pub proof fn lemma_strip_facts(ts: Seq<VTok>, nl_too: bool)
+    ensures
+        ({ let t2 = strip_lead(ts, nl_too); t2.len() == 0 || !(t2[0].0 == WHITESPACE || (nl_too && t2[0].0 == NEWLINE)) }),
+        !has_nl_spec(ts) ==> !has_nl_spec(strip_lead(ts, nl_too)),
+    decreases ts.len()
+{
+    if ts.len() > 0 && (ts[0].0 == WHITESPACE || (nl_too && ts[0].0 == NEWLINE)) {
+        lemma_strip_facts(ts.skip(1), nl_too);
+        if !has_nl_spec(ts) {
+            assert(!has_nl_spec(ts.skip(1))) by {
+                if has_nl_spec(ts.skip(1)) { let i = choose|i: int| 0 <= i < ts.skip(1).len() && (#[trigger] ts.skip(1)[i]).0 == NEWLINE; assert(ts[i + 1].0 == NEWLINE); }
+            }
+        }
+    }
+}
+/// one stripping step
+pub proof fn lemma_strip_step(ts: Seq<VTok>, nl_too: bool)
+    requires ts.len() > 0, ts[0].0 == WHITESPACE || (nl_too && ts[0].0 == NEWLINE)
+    ensures strip_lead(ts, nl_too) == strip_lead(ts.skip(1), nl_too)
+{ }
+pub proof fn lemma_strip_done(ts: Seq<VTok>, nl_too: bool)
+    requires ts.len() == 0 || !(ts[0].0 == WHITESPACE || (nl_too && ts[0].0 == NEWLINE))
+    ensures strip_lead(ts, nl_too) == ts
+{ }
